@@ -18,6 +18,7 @@ pub fn runs(property: &str, tier: Tier) -> u64 {
         "C26" => (960, 40000),
         "C25" => (2400, 100000),
         "C24" => (640, 16000),
+        "C23" => (192, 6000),
         _ => (160, 3000),
     };
     match tier { Tier::Quick => quick, Tier::Thorough => thorough }
@@ -230,6 +231,34 @@ pub fn describe(property: &str) -> Option<serde_json::Value> {
             "assumptions": [
                 "a view is self-consistent unless the injected fault says otherwise",
                 "rsync disabled so that 'not updated' means no data is handed out",
+            ],
+        }))
+    }
+    if property == "C23" {
+        return Some(json!({
+            "engine": "A (world) in crash mode: kill points in the store, \
+                       status file, TA store, cleanup and RRDP archive writes",
+            "level": "fault_enumeration",
+            "rule": "Each run: a seeded world and two ordinary steps, then \
+                     the third validation run is executed once per kill \
+                     point from the same pre-run cache (all points in \
+                     thorough, a seeded sample of 10 in quick); the cache \
+                     directory copied at kill point k is the crash image. \
+                     For every distinct image: (a) every stored point read \
+                     with StoredPoint::load_quietly is absent, header-only, \
+                     or byte-for-byte its previous or its new complete \
+                     version per the model; (b) an offline run succeeds; (c) \
+                     an online run yields exactly the data set of the \
+                     uninterrupted run; (d) the store status is readable. \
+                     Non-trivial: >= 1 image; distinct = (kill sites, \
+                     fault kinds, outcome vector).",
+            "assumptions": [
+                "crash = process kill (page cache survives): directory copy \
+                 at the kill point; no power-loss reordering",
+                "buffered temp-file writes coincide (user-space buffers die \
+                 with the process); tearing inside one write call is not modelled",
+                "no transport faults during the interrupted run so that its \
+                 result does not depend on which collector copy survives",
             ],
         }))
     }
